@@ -131,7 +131,11 @@ func run1(scratch string, o Opts) (*Result, error) {
 	if heap == "" {
 		heap = "6g"
 	}
-	args := []string{"-XX:+UseParallelGC", "-Xmx" + heap, "-Xss64m"}
+	// (TLC unpacks its standard modules into java.io.tmpdir and leaves them there: keep
+	// that inside the run's own directory, which is removed with it)
+	jtmp := filepath.Join(dir, "jtmp")
+	os.MkdirAll(jtmp, 0o755)
+	args := []string{"-XX:+UseParallelGC", "-Xmx" + heap, "-Xss64m", "-Djava.io.tmpdir=" + jtmp}
 	if o.DFS {
 		args = append(args, "-Dtlc2.tool.queue.IStateQueue=StateDeque")
 	} else if o.MemQueue {
